@@ -10,6 +10,7 @@ import re
 import gzip
 import json
 import zlib
+import io
 
 from ..common import Rng
 from .. import probe
@@ -31,7 +32,7 @@ REQUIRED_REACH = ['gzip:vary-on-uncompressed', 'mw:gzip', 'mw:cache', 'mw:stats'
                   'kind:http-raised', 'kind:http-returned', 'kind:rendered', 'kind:nonbreaking', 'gzip:compressed',
                   'gzip:not-compressed-by-choice', 'gzip:client-does-not-accept', 'pairs-compared', 'head-compared', 'kind:app-status', 'kind:raw-path']
 NSHARDS = 16
-MW_NAMES = ['gzip', 'cache', 'stats', 'profile', 'cookie', 'cookie-expiry', 'cookie-never', 'ctx', 'simplectx', 'getparam', 'getparam-typed',
+MW_NAMES = ['gzip', 'cache', 'stats', 'profile', 'cookie', 'cookie-expiry', 'cookie-never', 'ctx', 'simplectx', 'ctx-defaults', 'getparam', 'getparam-typed',
             'postdata', 'scriptroot']
 AE = [None, 'gzip', 'gzip, deflate', 'identity', 'gzip;q=0', '*', 'br', 'deflate, gzip;q=0.5', 'GZIP']
 BIG = ('lorem ipsum dolor sit amet ' * 2000)
@@ -54,10 +55,15 @@ def make_mw(name):
             'scriptroot': lambda: ScriptRootMiddleware()}[name]()
 
 
+def ctxnone():
+    return {'user': None, 'lang': None, 'theme': None, 'count': 0, 'n': 1}
+
+
 def build_app(stack, rnd_blob):
     from clastic import Application, Route, Response, render_basic, render_json
     from werkzeug.wrappers import BaseResponse
     from clastic import errors
+    from werkzeug.wsgi import wrap_file
 
     def boom():
         raise ValueError('scenario failure')
@@ -106,8 +112,18 @@ def build_app(stack, rnd_blob):
         Route('/rawtext', lambda: Response(bytes(range(256)) * 8)),           # werkzeug's default type: text/plain
         Route('/utf16html', lambda: Response(('<html><body>' + 'h\u00e9llo ' * 300 + '</body></html>').encode('utf-16'), mimetype='text/html')),
         Route('/seg/<x>', lambda x: Response('segment %r ' % x * 30, mimetype='text/plain')),
+        # a file-like body handed through untouched (direct passthrough, as a download endpoint does)
+        Route('/download', lambda request: Response(wrap_file(request.environ, io.BytesIO(b'0123456789' * 7000)), direct_passthrough=True,
+                                                    mimetype='application/octet-stream')),
+        Route('/ctxnone', ctxnone, render_json),
     ]
-    return Application(routes, middlewares=[make_mw(n) for n in stack])
+    if 'ctx-defaults' in stack:
+        # context processors with defaults, on the one route whose context carries all of their names already (some as None):
+        # what is there stays, a default only fills what is missing
+        from clastic.middleware import ContextProcessor, SimpleContextProcessor
+        routes[-1] = Route('/ctxnone', ctxnone, render_json, middlewares=[ContextProcessor(defaults={'user': 'anonymous', 'lang': 'en'}),
+                                                                         SimpleContextProcessor(theme='dark', count=1)])
+    return Application(routes, middlewares=[make_mw(n) for n in stack if n != 'ctx-defaults'])
 
 
 REQUESTS = [
@@ -125,6 +141,7 @@ REQUESTS = [
     ('text', 'GET', '/text', b''),
     ('app-status', 'GET', '/created', b''), ('app-status', 'GET', '/found', b''), ('app-status', 'GET', '/app404', b''), ('app-status', 'GET', '/app503', b''),
     ('app-status', 'GET', '/accepted', b''),
+    ('text', 'GET', '/download', b''), ('rendered', 'GET', '/ctxnone', b''), ('rendered', 'GET', '/ctxnone', b''),
     ('text', 'GET', '/latin1', b''), ('text', 'GET', '/rawtext', b''), ('text', 'GET', '/utf16html', b''),
     ('text', 'GET', '/seg/caf\u00e9', b''), ('raw-path', 'GET', 'raw:/seg/caf\xe9', b''), ('raw-path', 'GET', 'raw:/seg/\xff\xfe', b''),
     ('raw-path', 'GET', 'raw:/nope/\xe9t\xe9', b''), ('raw-path', 'GET', 'raw:/seg/ab\xc3', b''), ('raw-path', 'POST', 'raw:/only-get\xa0', b'x=1'),
